@@ -341,4 +341,14 @@ PLANS["C19"] = {
     "assumptions": ["Miri: aliasing models off (Tree Borrows only for the ThreadPool::drop witness), data-race detector + weak memory on; pools are leaked (not dropped) inside Miri scenarios"],
 }
 
+PLANS["C15"] = {
+    "jobs": simple_jobs("c15", 24000, 1600000),
+    "level": "exploration",
+    "technique": "round-trip (metamorphic) runtime oracle: generated syntax trees vs egglog's parse;print read back by an independent s-expression reader; literal extraction and resolve_program re-run",
+    "level_text": "Syntax trees over the full command grammar with every option and hostile literals (i64 extremes, NaN, +-inf, -0.0, subnormals, 1e308, strings with quotes, backslashes, newlines, unicode) are printed, parsed and re-printed by egglog; an independent reader compares the result with the generated tree modulo option order and numeric spelling, and the printed text must be a fixpoint. Extracted literals are re-inserted and checked equal; resolve_program output is re-run on a fresh engine and must give the same outputs.",
+    "level_note": "The comparison is on s-expression structure of the canonical text, which is what a span-erasing AST comparison amounts to; internal (:internal-*) annotations are exercised only through resolve_program outputs.",
+    "floors": {"quick": {"grammar_productions_exercised": 60, "literal_extractions": 1000, "resolve_programs": 300}, "thorough": {"grammar_productions_exercised": 60, "literal_extractions": 100000, "resolve_programs": 20000}},
+    "assumptions": ["independent reader implements the documented lexer rules (strings with \\n \\t \\\\ \\\" escapes, ; comments)"],
+}
+
 NOT_APPLICABLE = {}
